@@ -46,7 +46,7 @@ def py_round(x):
     return math.floor(x + 0.5) if x >= 0 else -math.floor(-x + 0.5)
 
 
-def main_sizes_double(n, nbuckets, sps, padding, roundp):
+def main_sizes_double(n, nbuckets, sps, padding, roundp, pinned=False):
     """the program's own double evaluation (std::round / std::ceil of double products)"""
     def upt(v):
         v = (v - 1) & (2 ** 64 - 1)
@@ -56,6 +56,8 @@ def main_sizes_double(n, nbuckets, sps, padding, roundp):
     sp = py_round(n * sps)
     padded = math.ceil(n * max(padding, 1.0))
     spaced = math.ceil(((n * nbuckets) & 0xffffffff) * sps)
+    if not pinned:      # fix d13e4f1: room for the last bucket's block
+        spaced = max(spaced, ((((nbuckets - 1) & 0xffffffff) * sp + n) & (2 ** 64 - 1)))
     if roundp:
         padded, spaced = upt(padded), upt(spaced)
     return sp, padded, spaced, (spaced if nbuckets > 1 else padded)
